@@ -71,9 +71,10 @@ type c17Res struct {
 }
 
 type c17Hdr struct {
-	Dirs  []string   `json:"dirs"`  // quoted, relative to the root
-	Trees [][]string `json:"trees"` // per tree id: quoted file paths
-	Cwd   string     `json:"cwd"`   // quoted
+	Dirs     []string   `json:"dirs"`                // quoted, relative to the root: the directories every tree has
+	TreeDirs [][]string `json:"tree_dirs,omitempty"` // per tree id: all its directories (the fault tree has more)
+	Trees    [][]string `json:"trees"`               // per tree id: quoted file paths
+	Cwd      string     `json:"cwd"`                 // quoted
 }
 
 type c17HdrLine struct {
@@ -313,6 +314,7 @@ type c17Tree struct {
 	snap     map[string]c17Ent
 	notify   *c17Notify // nil: walk after every step
 	steps    int
+	cur      int // tree id the real tree was last brought to
 }
 
 // ---------------------------------------------------------------------------- inotify
@@ -416,9 +418,9 @@ func c17NewTree(base string, hdr *c17Hdr, skip string) (*c17Tree, error) {
 			}
 		}
 	}
-	for _, tr := range hdr.Trees {
+	for k, tr := range hdr.Trees {
 		b := map[string]c17Ent{}
-		for _, q := range hdr.Dirs {
+		for _, q := range t.dirsOf(k) {
 			if d := c17U(q); d != "" {
 				b[d] = c17Ent{Kind: 'd'}
 			}
@@ -432,6 +434,13 @@ func c17NewTree(base string, hdr *c17Hdr, skip string) (*c17Tree, error) {
 	var err error
 	t.snap, err = c17Walk(base, skip)
 	return t, err
+}
+
+func (t *c17Tree) dirsOf(k int) []string {
+	if k >= 0 && k < len(t.hdr.TreeDirs) && len(t.hdr.TreeDirs[k]) > 0 {
+		return t.hdr.TreeDirs[k]
+	}
+	return t.hdr.Dirs
 }
 
 func (t *c17Tree) inSkip(p string) bool {
@@ -451,18 +460,40 @@ func (t *c17Tree) toBaseline(k int) error {
 		}
 	}
 	sort.Sort(sort.Reverse(sort.StringSlice(extra))) // children before parents
+	dirChanged := t.cur != k
 	for _, p := range extra {
+		if t.snap[p].Kind == 'd' {
+			dirChanged = true
+		}
 		if err := os.RemoveAll(filepath.Join(t.base, p)); err != nil {
 			return err
 		}
 		delete(t.snap, p)
 	}
+	t.cur = k
+	if dirChanged && t.notify != nil {
+		defer t.rewatch() // the set of watched directories follows the tree
+	}
+	// directories (parents first), then files
+	todo := make([]string, 0, 8)
 	for p, e := range b {
 		if cur, ok := t.snap[p]; ok && cur == e {
 			continue
 		}
+		todo = append(todo, p)
+	}
+	sort.Slice(todo, func(i, j int) bool {
+		di, dj := b[todo[i]].Kind == 'd', b[todo[j]].Kind == 'd'
+		if di != dj {
+			return di
+		}
+		return todo[i] < todo[j]
+	})
+	for _, p := range todo {
+		e := b[p]
 		full := filepath.Join(t.base, p)
 		if e.Kind == 'd' {
+			dirChanged = true
 			_ = os.RemoveAll(full)
 			if err := os.MkdirAll(full, 0o755); err != nil {
 				return err
@@ -539,7 +570,7 @@ func (t *c17Tree) observe(o *c17Obs, out string) error {
 
 func (t *c17Tree) dirList() []string {
 	var dirs []string
-	for _, q := range t.hdr.Dirs {
+	for _, q := range t.dirsOf(t.cur) {
 		dirs = append(dirs, c17U(q))
 	}
 	return dirs
